@@ -1,4 +1,5 @@
 #!/bin/bash
+export VERIF_EVIDENCE_DIR=/tmp/verif_scratch_evidence VERIF_REPLAY_DIR=/tmp/verif_scratch_replays
 # usage: tools_seed_confirm.sh <worktree> <seed-id> <PROP> [<PROP>...]
 # Confirms a seeded change (tests pass with it, demo fails with it and passes without),
 # stores it under /verif/seeded/<seed-id>/ and runs the given checks against it in /repo.
